@@ -17,9 +17,10 @@
   * `style.startswith("require_blank_line")` selects the extractor of family `below`, `==` selects the analysis;
   * `get_line_below_line_ending_with_token_with_hierarchy` keeps `None` regions; `_analyze_require_blank_line`
     then calls `None.get_tokens()`: AttributeError;
-  * `_analyze_require_comment` reads `self.allow_comment`, an attribute no `previous_line` rule has
-    (`allowComment = none`): AttributeError — but only when the line above the comment block is `[whitespace,
-    comment]` (Python's `and` is lazy);
+  * (repaired in /repo, WP5b) `_analyze_require_comment` used to read `self.allow_comment`, an attribute no
+    `previous_line` rule has: AttributeError when the line above the comment block is `[whitespace, comment]`.
+    It asks `_comment_starts_line` now: a comment line there means the comments reach the beginning of the
+    file, and nothing is reported;
   * `require_blank_line_unless_pragma` APPENDS `token.pragma.pragma` to `self.lAllowTokens` on every analysis
     (the list object is shared with the rule's module): the model is ONE call on the rule's original list;
   * `_is_allowed_token` is `isinstance`: class ancestors (`inst`);
@@ -65,7 +66,6 @@ structure Params where
   style : Str                        -- self.style
   hier : Option (List Int) := none   -- self.lHierarchyLimits
   solution : Str := []               -- self.solution (previous_line)
-  allowComment : Option Bool := none -- self.allow_comment (`none`: the attribute does not exist)
   crCls : Nat
   blCls : Nat
   wsCls : Nat
@@ -206,16 +206,10 @@ def judgeRequireComment (inst : Tok → Nat → Bool) (P : Params) (r : Region) 
     else if !commentStartsLine inst P a.toks then pure (mkViol a a.line .skip solComment)
     else if isAllowed inst P.allow b.toks then pure none
     else
-      match b.toks with
-      | [t] => if inst t P.blCls then pure none else pure (mkViol b b.line .insert P.solution)
-      | [x, y] =>
-        if inst x P.wsCls && inst y P.commentCls then
-          match P.allowComment with
-          | none => .error .attributeError
-          | some true => pure none
-          | some false => pure (mkViol b b.line .insert P.solution)
-        else pure (mkViol b b.line .insert P.solution)
-      | _ => pure (mkViol b b.line .insert P.solution)
+      if (match b.toks with | [t] => inst t P.blCls | _ => false) then pure none
+      -- the comments reach the beginning of the file: there is no line above them
+      else if commentStartsLine inst P b.toks then pure none
+      else pure (mkViol b b.line .insert P.solution)
 
 /-- `_analyze`: the style dispatch of the three classes -/
 def judge (inst : Tok → Nat → Bool) (P : Params) (r : Region) : Except PyErr (Option (Viol × Str)) :=
